@@ -50,6 +50,19 @@ def main():
         out.append('| %s | %s | %s | %s | %s | %s |' % (m['name'], m['property'], 'yes' if m.get('confirmed') else 'NO',
                                                       'yes' if m.get('caught') else 'NO',
                                                       'yes' if (m.get('caught_with_input') and ok) else 'no', det))
+    out += ['', '--------------------------------------------------------------------------------', '',
+            '## 14. Behaviour-preserving refactorings and false alarms', '',
+            'Independent "harmless refactorer" sub-agents (own worktree, nothing from /verif) produced realistic',
+            'behaviour-preserving refactorings (helpers extracted/inlined, loops over literal tables, renamed locals,',
+            'guard clauses, changed message texts, added classes/entries); each keeps the 406 tests green and passes its',
+            'own before/after demo. `tools/try_harmless.py` runs the checks of the touched area against each. A check',
+            'that alarms here raises a false alarm (always of the `no-failing-input-found` kind: a translator refused a',
+            'construct, so an obligation over generated definitions could not be re-established).', '',
+            '| refactoring | confirmed harmless | checks run | false alarms |', '|---|---|---|---|']
+    for f in sorted((V / 'harmless').glob('*/meta.json')):
+        m = json.loads(f.read_text())
+        out.append('| %s | %s | %s | %s |' % (m['name'], 'yes' if m.get('confirmed_harmless') else 'NO',
+                                             ' '.join(m.get('properties_run', [])), ' '.join(m.get('false_alarms', [])) or '-'))
     (V / 'DESIGN.md').write_text(head + '\n'.join(out) + '\n')
     print('DESIGN.md: %d build notes, %d findings, %d seeded' % (
         len(list((V / 'design.d').glob('C*.md'))), len(kn), len(list((V / 'seeded').glob('*/meta.json')))))
